@@ -374,6 +374,12 @@ def shrink(mod, case, div):
         return None
 
     shrinker = getattr(mod, 'shrink', default_shrink)
+    if isinstance(case, dict) and case.get('scenario') == 'session':
+        from vf import session
+        shrinker = session.shrink
+    elif isinstance(case, dict) and case.get('scenario') in (
+            'reentry', 'overtake', 'disable_in_on_add', 'stale-mark'):
+        shrinker = default_shrink       # small fixed-shape scenarios
     progress = True
     while progress and runs < MAX_SHRINK_RUNS:
         progress = False
